@@ -53,6 +53,10 @@ def run(prop: str, tier: str, seed: int) -> int:
         if m["clause"] in wanted:
             rep.violation(m["clause"], {**m, "channel": "R", "family": "MC_NT"})
     if prop == "C02":
+        # "a format dialect leaves exactly its declared native types unconverted ... and nothing else differs": the parsed
+        # document of every format mixin / codec over the MC_C04 shape universe (converted map keys included)
+        from harness.checks import c04
+        c04.format_vectors(rep, tier, wanted={"format-document", "format-encode-raises"})
         # format dialects leave exactly their native types unconverted -- also on the FIRST call of a lazily compiled format mixin
         from harness.checks import sys_props
         sys_props.run_into(rep, "C02", tier, seed)
